@@ -8,7 +8,8 @@ Trees travel as text: `n t f I(<int>) F(<+|-><mant>p<exp>) F(+inf) F(-inf) F(nan
 data) and `C` (a reference back to a container that is being printed: cyclic data).
 
 * `run <dev> <n> <plan> <root>` — NewPlan, then `n` (1 or 2) executions of the SAME plan on fresh
-  copies of the root: `<outcome> <root after>` per run, joined by `;` (a run that ends `diverge`,
+  copies of the root: `<outcome> <root after>` per run, joined by `;` (before each execution the heap
+  layout assumed by `rerun_general`/`execute_total` is checked: `layout` if it does not hold; a run that ends `diverge`,
   `unmodelled`, `enum` or `fuel` ends the answer). `<dev>`: `cur` (`Dev.current`), `-` (`Dev.none`)
   or a subset of the letters `c d n l f a` (`cmpUneval divZeroInf condListNil litAlias cmpFloat
   condListAlias`).
@@ -178,6 +179,8 @@ def runPlan (dev : Dev) (n : Nat) (planT rootT : Tree) : String :=
           match loadTree fuel rootT h with
           | (.error _, _) => ("fuel" :: acc).reverse
           | (.ok root, h1) =>
+            -- the layout the general theorems assume (plan cells = the cells loaded for the plan)
+            if !layoutOK h0.length h1 root plan then ("layout" :: acc).reverse else
             let (o, h2) := execute env true fuel plan root h1
             let line := o.text ++ " " ++ renderRoot h2 root
             match o with
